@@ -35,7 +35,7 @@ func gCorpus(c *Ctx, mode int) []*corpus.Spec {
 			want[s.Name] = true
 		}
 	default:
-		for _, n := range []string{"expr_std", "expr_nonassoc", "etf", "lvalue", "sep_ba", "nqlalr", "list_null", "opt_mid", "prec_mixed", "nullseq_OM", "etf_basefirst", "dangling_else", "len4", "len10", "stmts12", "redecl", "rlist", "split_groups", "nullable_chain3", "big200", "rlist_basefirst", "alias_follow", "mod_op", "same_actions", "copy_actions"} {
+		for _, n := range []string{"expr_std", "expr_nonassoc", "etf", "lvalue", "sep_ba", "nqlalr", "list_null", "opt_mid", "prec_mixed", "nullseq_OM", "etf_basefirst", "dangling_else", "len4", "len10", "stmts12", "redecl", "rlist", "split_groups", "nullable_chain3", "big200", "rlist_basefirst", "alias_follow", "mod_op", "same_actions", "copy_actions", "partial_kernel"} {
 			want[n] = true
 		}
 	}
